@@ -356,6 +356,8 @@ def bigger(inst, k, cap=None):
         for c, ops in p.items():
             out = []
             for o in ops:
+                if o["op"] == "unsub":
+                    continue        # subscriptions stay until the store stops: the scaled-up runs are about backlog
                 out.append(o)
                 if o["op"] == "dispatch":
                     for _ in range(k - 1):
@@ -363,10 +365,26 @@ def bigger(inst, k, cap=None):
                         acts[nxt] = acts[o["a"]]
                         out.append(dict(o, a=nxt))
             q[c] = out
+        # in the scaled-up runs the store is shut down only after the dispatchers are through (the races
+        # between dispatch and shutdown are what the small instances enumerate)
+        senders = [c for c, ops in q.items() if any(o["op"] == "dispatch" for o in ops)]
+        for c in senders:
+            last = max(i for i, o in enumerate(q[c]) if o["op"] == "dispatch")
+            q[c] = q[c][:last + 1] + [S("signal", "sent_" + c)] + q[c][last + 1:]
+        for c, ops in q.items():
+            idx = [i for i, o in enumerate(ops) if o["op"] in ("stop", "close", "drop_store")]
+            if idx:
+                i0 = idx[0]
+                waits = [S("wait", "sent_" + c2) for c2 in senders
+                         if c2 != c or any(o["op"] == "signal" and o["s"] == "sent_" + c for o in ops[:i0])]
+                q[c] = ops[:i0] + waits + ops[i0:]
         progs.append(q)
     b = dict(inst)
-    b.update(name=inst["name"] + "_x%d" % k, programs=progs, acts=acts, cap=cap or inst["cap"],
-             max_tasks=inst["max_tasks"] * k + 2)
+    b.update(name=inst["name"] + "_x%d%s" % (k, "c%d" % cap if cap else ""), programs=progs, acts=acts,
+             cap=cap or inst["cap"], max_tasks=inst["max_tasks"] * k + 2,
+             slow_reduce_us=400 if cap else 0, slow_deliver_us=3000 if cap else 0)
+    if cap:     # larger subscriber channels as well (iterators keep their capacity of 1)
+        b["subs"] = {s_: (dict(c, cap=cap) if c["kind"] == "chan" else c) for s_, c in inst["subs"].items()}
     return b
 
 
@@ -471,6 +489,15 @@ def table(pid, tier):
                  free=[(i, 60 if q else 400) for i in insts])
     for k in ("mc", "gen", "free", "strict", "live"):
         T.setdefault(k, [])
+    if q and T["free"]:
+        # a look beyond the small scope already in the quick tier: the first instance's programs with 5
+        # dispatches for each one, once with the instance's capacity and once with capacity 6
+        inst0 = T["free"][0][0]
+        uses_followup = any(e["eff"]["k"] in ("act", "thunk") for t in inst0["red_script"].values() for e in t.values()) \
+            or any(o["op"] == "thunk" for p in inst0["programs"] for ops in p.values() for o in ops) \
+            or any(v for t in inst0.get("mw_disp", {}).values() for v in t.values())
+        if not uses_followup:
+            T["free"] = T["free"] + [(bigger(inst0, 5), 20), (bigger(inst0, 6, cap=16), 25)]   # 16 = the library's default
     if not q and pid in HEAVY:
         T["mc"] = T["mc"] + HEAVY[pid]()
     if not q:
